@@ -92,11 +92,20 @@ inductive BuildErr where
   | importNotFound (path : String)
   deriving DecidableEq, Repr
 
-/-- ast.IsExported (ASCII identifiers) -/
-def exported (s : String) : Bool := match s.toList with | c :: _ => c.isUpper | [] => false
+/-- the capital letters of Latin-1 (À … Þ without ×): with ASCII, the part of Unicode the identifiers of the generators use -/
+def isLatin1Upper (c : Char) : Bool := (0xC0 ≤ c.toNat && c.toNat ≤ 0xDE) && c.toNat != 0xD7
 
-/-- strings.ToLower (ASCII identifiers) -/
-def lower (s : String) : String := String.ofList (s.toList.map Char.toLower)
+/-- unicode.ToLower on ASCII and Latin-1 -/
+def goToLower (c : Char) : Char := if isLatin1Upper c then Char.ofNat (c.toNat + 32) else c.toLower
+
+/-- unicode.IsUpper on ASCII and Latin-1 -/
+def goIsUpper (c : Char) : Bool := c.isUpper || isLatin1Upper c
+
+/-- ast.IsExported (identifiers over ASCII and Latin-1) -/
+def exported (s : String) : Bool := match s.toList with | c :: _ => goIsUpper c | [] => false
+
+/-- strings.ToLower (text over ASCII and Latin-1) -/
+def lower (s : String) : String := String.ofList (s.toList.map goToLower)
 
 /-- sort by a string key (`sort.Strings`, `sort.Sort` with a `Less` on a string field) -/
 def sortBy {α} (key : α → String) (l : List α) : List α :=
